@@ -9,69 +9,102 @@
    harness/cmd/lockscan; the two [vm_compute] theorems below are statements about THAT table, and
    [C28_components_linearizable] instantiates the premise of part 1 with it. *)
 From Coq Require Import String List NArith Bool.
-From LV Require Import model.LockDiscipline model.Lin proofs.LinSim proofs.LinHW proofs.LinHB proofs.Lin proofs.LinTable gen.LockTable.
+From LV Require Import model.LockDiscipline model.Lin proofs.LinSim proofs.LinHW proofs.LinHB proofs.Lin proofs.LinTable
+  model.Wlru model.Semaphore model.LinObjects proofs.LinInstances gen.LockTable.
 Import ListNotations.
 Local Open Scope string_scope.
 
 (* ------------------------------------------------------------------ part 1: generic theorems *)
+(* General form, with sync.Cond.Wait: [waits]/[wstep] describe where a body waits; [resumable] is the
+   invariant of the locals with which a thread (re-)enters its critical section (model/Lin.v). *)
 Theorem C28_locked_refines_atomic :
   forall (state op ret local : Type) (linit : op -> local) (mstep : op -> local -> state -> local * state)
-         (fin : op -> local -> option ret) (kind : op -> lkind) (s0 : state),
+         (fin : op -> local -> option ret) (waits : op -> local -> bool) (wstep : op -> local -> local)
+         (kind : op -> lkind) (s0 : state),
     shared_readonly state op local mstep kind -> none_stateless state op local mstep kind ->
-    forall tr c, exec state op ret local linit mstep fin kind s0 tr c ->
-    exists atr a, aexec state op ret local linit mstep fin s0 atr a /\ ahist op ret atr = hist op ret tr.
-Proof. exact locked_refines_atomic. Qed.
+    wait_excl op local waits kind ->
+    forall resumable, resumable_inv state op ret local linit mstep fin waits wstep resumable ->
+    forall tr c, exec state op ret local linit mstep fin waits wstep kind s0 tr c ->
+    exists atr a, aexec state op ret local linit mstep fin waits wstep s0 atr a /\ ahist op ret atr = hist op ret tr.
+Proof. exact locked_refines_atomic_w. Qed.
 
 Theorem C28_locked_atomic_linearizable :
   forall (state op ret local : Type) (linit : op -> local) (mstep : op -> local -> state -> local * state)
+         (fin : op -> local -> option ret) (waits : op -> local -> bool) (wstep : op -> local -> local)
+         (kind : op -> lkind) (s0 : state),
+    shared_readonly state op local mstep kind -> none_stateless state op local mstep kind ->
+    wait_excl op local waits kind ->
+    forall resumable, resumable_inv state op ret local linit mstep fin waits wstep resumable ->
+    forall tr c, exec state op ret local linit mstep fin waits wstep kind s0 tr c ->
+    linearizable state op ret local linit mstep fin waits wstep s0 (hist op ret tr).
+Proof. exact locked_atomic_linearizable_w. Qed.
+
+(* bodies that never wait: no further premise *)
+Theorem C28_locked_atomic_linearizable_nowait :
+  forall (state op ret local : Type) (linit : op -> local) (mstep : op -> local -> state -> local * state)
          (fin : op -> local -> option ret) (kind : op -> lkind) (s0 : state),
     shared_readonly state op local mstep kind -> none_stateless state op local mstep kind ->
-    forall tr c, exec state op ret local linit mstep fin kind s0 tr c ->
-    linearizable state op ret local linit mstep fin s0 (hist op ret tr).
+    forall tr c, exec state op ret local linit mstep fin nowait nowstep kind s0 tr c ->
+    linearizable state op ret local linit mstep fin nowait nowstep s0 (hist op ret tr).
 Proof. exact locked_atomic_linearizable. Qed.
 
+(* NOTE on what this says: mutual exclusion is the SEMANTICS of the mutex in this machine (precondition of
+   [Acq]); the theorem states that under the lock discipline no configuration with two conflicting enabled
+   accesses is reachable.  It is a statement about the discipline, not about the Go code: that the Go code
+   follows the discipline rests on the translator (trusted) and on the race detector runs. *)
 Theorem C28_locked_race_free :
   forall (state op ret local : Type) (linit : op -> local) (mstep : op -> local -> state -> local * state)
-         (fin : op -> local -> option ret) (kind : op -> lkind) (s0 : state),
+         (fin : op -> local -> option ret) (waits : op -> local -> bool) (wstep : op -> local -> local)
+         (kind : op -> lkind) (s0 : state),
     shared_readonly state op local mstep kind -> none_stateless state op local mstep kind ->
-    forall tr c, exec state op ret local linit mstep fin kind s0 tr c -> ~ race state op ret local fin kind c.
-Proof. exact locked_race_free. Qed.
+    wait_excl op local waits kind ->
+    forall resumable, resumable_inv state op ret local linit mstep fin waits wstep resumable ->
+    forall tr c, exec state op ret local linit mstep fin waits wstep kind s0 tr c ->
+    ~ race state op ret local fin waits kind c.
+Proof. exact locked_race_free_w. Qed.
 
 (* conflicting accesses are ordered by the lock: between an access of t inside its critical section and a
-   later access of t' inside its own, one of the two sections being exclusive, t releases the mutex and
-   afterwards t' acquires it (program order ; release/acquire ; program order) *)
+   later access of t' inside its own, one of the two sections being exclusive, t gives the mutex up (Unlock,
+   or Cond.Wait) and afterwards t' acquires it (program order ; release/acquire ; program order) *)
 Theorem C28_conflicting_accesses_ordered :
   forall (state op ret local : Type) (linit : op -> local) (mstep : op -> local -> state -> local * state)
-         (fin : op -> local -> option ret) (kind : op -> lkind) (s0 : state),
+         (fin : op -> local -> option ret) (waits : op -> local -> bool) (wstep : op -> local -> local)
+         (kind : op -> lkind) (s0 : state),
     shared_readonly state op local mstep kind -> none_stateless state op local mstep kind ->
+    wait_excl op local waits kind ->
+    forall resumable, resumable_inv state op ret local linit mstep fin waits wstep resumable ->
     forall pre c0 c1 mid c2 t t' o l o' l',
-      exec state op ret local linit mstep fin kind s0 pre c0 ->
-      th _ _ _ _ c0 t = InCS _ _ _ o l -> step state op ret local linit mstep fin kind c0 (Body op ret t) c1 ->
-      run state op ret local linit mstep fin kind c1 mid c2 -> th _ _ _ _ c2 t' = InCS _ _ _ o' l' ->
+      exec state op ret local linit mstep fin waits wstep kind s0 pre c0 ->
+      th _ _ _ _ c0 t = InCS _ _ _ o l ->
+      model.Lin.step state op ret local linit mstep fin waits wstep kind c0 (Body op ret t) c1 ->
+      model.Lin.run state op ret local linit mstep fin waits wstep kind c1 mid c2 -> th _ _ _ _ c2 t' = InCS _ _ _ o' l' ->
       t <> t' -> kind o = KExcl \/ kind o' = KExcl ->
-      exists m1 m2 m3, mid = (m1 ++ Rel op ret t :: m2 ++ Acq op ret t' :: m3)%list.
+      exists m1 x m2 m3, mid = (m1 ++ x :: m2 ++ Acq op ret t' :: m3)%list /\ (x = Rel op ret t \/ x = Wait op ret t).
 Proof. exact conflicts_ordered. Qed.
 
 (* every trace of the atomic object is linearizable (the second half of the argument, on its own) *)
 Theorem C28_atomic_linearizable :
   forall (state op ret local : Type) (linit : op -> local) (mstep : op -> local -> state -> local * state)
-         (fin : op -> local -> option ret) (s0 : state) atr a,
-    aexec state op ret local linit mstep fin s0 atr a ->
-    linearizable state op ret local linit mstep fin s0 (ahist op ret atr).
+         (fin : op -> local -> option ret) (waits : op -> local -> bool) (wstep : op -> local -> local)
+         (s0 : state) atr a,
+    aexec state op ret local linit mstep fin waits wstep s0 atr a ->
+    linearizable state op ret local linit mstep fin waits wstep s0 (ahist op ret atr).
 Proof. exact atomic_linearizable. Qed.
 
 (* the premise cannot be dropped: a reader that takes no lock, between the two steps of a writer *)
 Theorem C28_unlocked_read_not_linearizable :
-  (exists c, exec nat Counter.cop nat (nat * nat) Counter.clinit Counter.cmstep Counter.cfin Counter.kind_bad 0
-                  Counter.bad_trace c) /\
-  ~ linearizable nat Counter.cop nat (nat * nat) Counter.clinit Counter.cmstep Counter.cfin 0 Counter.bad_history.
+  (exists c, exec nat Counter.cop nat (nat * nat) Counter.clinit Counter.cmstep Counter.cfin nowait nowstep
+                  Counter.kind_bad 0 Counter.bad_trace c) /\
+  ~ linearizable nat Counter.cop nat (nat * nat) Counter.clinit Counter.cmstep Counter.cfin nowait nowstep 0
+      Counter.bad_history.
 Proof. split; [exact Counter.bad_trace_exec | exact Counter.unlocked_read_not_linearizable]. Qed.
 
 (* non-vacuity of part 1: the premises hold for a concrete object and readers really overlap *)
 Example C28_premises_satisfiable :
   shared_readonly nat Counter.cop (nat * nat) Counter.cmstep Counter.kind_ok /\
   none_stateless nat Counter.cop (nat * nat) Counter.cmstep Counter.kind_ok /\
-  exists tr c, exec nat Counter.cop nat (nat * nat) Counter.clinit Counter.cmstep Counter.cfin Counter.kind_ok 0 tr c /\
+  exists tr c, exec nat Counter.cop nat (nat * nat) Counter.clinit Counter.cmstep Counter.cfin nowait nowstep
+                    Counter.kind_ok 0 tr c /\
     (exists o l, th _ _ _ _ c 1 = InCS _ _ _ o l) /\ (exists o l, th _ _ _ _ c 2 = InCS _ _ _ o l).
 Proof. split; [exact Counter.ok_shared | split; [exact Counter.ok_none | exact Counter.readers_overlap]]. Qed.
 
@@ -93,31 +126,133 @@ Theorem C28_eventsbuffer_unlocked_reads_refuted :
   map row_key (filter (fun r => negb (method_ok r)) lock_table) = known_unlocked.
 Proof. vm_compute. reflexivity. Qed.
 
-(* the instance: any object whose operations are methods with a row in the checked table *)
+(* ---- the table instantiated with the ACTUAL sequential models (proofs/LinInstances.v) ---- *)
+(* wlru.Cache: every method has an ok row; the rows that take the shared lock are methods whose step in
+   model/Wlru.v (C29) returns the cache unchanged (Peek / Contains do not refresh; Keys, Len, Weight, Total,
+   GetOldest read).  A row reporting RLock for Add/Get/Remove/... makes this false. *)
+Theorem C28_wlru_table_check : tk_check wkeys wk_readonly checked_table = true.
+Proof. vm_compute. reflexivity. Qed.
+
+Theorem C28_wlru_cache_linearizable :
+  forall (K V : Type) (keqb : K -> K -> bool) (c0 : Wlru.cache K V) tr c,
+    exec (Wlru.cache K V) wop wret (option wret) (os_linit wop wret) (os_mstep _ _ _ (wstep keqb)) (os_fin wop wret)
+         nowait nowstep (wkind checked_table) c0 tr c ->
+    linearizable (Wlru.cache K V) wop wret (option wret) (os_linit wop wret) (os_mstep _ _ _ (wstep keqb))
+         (os_fin wop wret) nowait nowstep c0 (hist wop wret tr).
+Proof. exact (fun K V keqb => wlru_linearizable keqb checked_table C28_wlru_table_check). Qed.
+
+Theorem C28_wlru_cache_race_free :
+  forall (K V : Type) (keqb : K -> K -> bool) (c0 : Wlru.cache K V) tr c,
+    exec (Wlru.cache K V) wop wret (option wret) (os_linit wop wret) (os_mstep _ _ _ (wstep keqb)) (os_fin wop wret)
+         nowait nowstep (wkind checked_table) c0 tr c ->
+    ~ race (Wlru.cache K V) wop wret (option wret) (os_fin wop wret) nowait (wkind checked_table) c.
+Proof. exact (fun K V keqb => wlru_race_free keqb checked_table C28_wlru_table_check). Qed.
+
+(* "linearizable w.r.t. Wlru.v": the sequential specification of that object is Wlru.step (plus Total) *)
+Theorem C28_wlru_sequential_spec_is_the_model :
+  forall (K V : Type) (keqb : K -> K -> bool) o (s s' : Wlru.cache K V) r,
+    seq_exec (Wlru.cache K V) wop wret (option wret) (os_linit wop wret) (os_mstep _ _ _ (wstep keqb))
+             (os_fin wop wret) nowait nowstep o s s' r <-> wstep keqb s o = (s', r).
+Proof. exact (fun K V keqb => os_seq_exec (Wlru.cache K V) wop wret (wstep keqb)). Qed.
+
+(* Flushable (and LazyFlushable, whose parent is produced lazily) over model/Flushable.v (C22), assembled in
+   model/LinObjects.fl_step: Put/Delete/Get/Has/Flush/DropNotFlushed/NotFlushedPairs/NotFlushedSizeEst/
+   GetSnapshot (content through the merged iterator)/batch Write/Stat.  Rows: Flushable.*, flushableReader.Get/Has,
+   cacheBatch.Write (the batch locks the store it writes to). *)
+Theorem C28_flushable_table_check : tk_check fkeys fk_readonly checked_table = true.
+Proof. vm_compute. reflexivity. Qed.
+
+Theorem C28_flushable_linearizable :
+  forall (s0 : fstate) tr c,
+    exec fstate fop fres (option fres) (os_linit fop fres) (os_mstep _ _ _ fl_step) (os_fin fop fres)
+         nowait nowstep (fkind checked_table) s0 tr c ->
+    linearizable fstate fop fres (option fres) (os_linit fop fres) (os_mstep _ _ _ fl_step) (os_fin fop fres)
+         nowait nowstep s0 (hist fop fres tr).
+Proof. exact (flushable_linearizable checked_table C28_flushable_table_check). Qed.
+
+Theorem C28_flushable_race_free :
+  forall (s0 : fstate) tr c,
+    exec fstate fop fres (option fres) (os_linit fop fres) (os_mstep _ _ _ fl_step) (os_fin fop fres)
+         nowait nowstep (fkind checked_table) s0 tr c ->
+    ~ race fstate fop fres (option fres) (os_fin fop fres) nowait (fkind checked_table) c.
+Proof. exact (flushable_race_free checked_table C28_flushable_table_check). Qed.
+
+(* DataSemaphore, including the blocking Acquire (Cond.Wait loop), over model/Semaphore.v (C30) *)
+Theorem C28_semaphore_table_check : tk_check skeys sk_readonly checked_table = true.
+Proof. vm_compute. reflexivity. Qed.
+
+Theorem C28_semaphore_linearizable :
+  forall (st0 : sstate) tr c,
+    exec sstate sop sret sloc sem_linit sem_mstep sem_fin sem_waits sem_wstep (skind checked_table) st0 tr c ->
+    linearizable sstate sop sret sloc sem_linit sem_mstep sem_fin sem_waits sem_wstep st0 (hist sop sret tr).
+Proof. exact (sem_linearizable checked_table C28_semaphore_table_check). Qed.
+
+Theorem C28_semaphore_race_free :
+  forall (st0 : sstate) tr c,
+    exec sstate sop sret sloc sem_linit sem_mstep sem_fin sem_waits sem_wstep (skind checked_table) st0 tr c ->
+    ~ race sstate sop sret sloc sem_fin sem_waits (skind checked_table) c.
+Proof. exact (sem_race_free checked_table C28_semaphore_table_check). Qed.
+
+(* sequentially every operation of that object, Acquire included, has the result and effect of Semaphore.v's
+   arithmetic (try_acquire / release) *)
+Theorem C28_semaphore_sequential_spec_is_the_model :
+  forall o st st' r,
+    seq_exec sstate sop sret sloc sem_linit sem_mstep sem_fin sem_waits sem_wstep o st st' r ->
+    sem_step st o = (st', r).
+Proof. exact sem_seq_exec_step. Qed.
+
+(* non-vacuity of the semaphore instance, Wait included: with the kinds of the real table, a blocked
+   Acquire waits on the condition variable, another goroutine releases, the waiter re-acquires and succeeds *)
+Example C28_semaphore_blocking_acquire_trace :
+  skind checked_table (SAcquire m11 1) = KExcl /\ skind checked_table SProcessing = KExcl /\
+  exists c, exec sstate sop sret sloc sem_linit sem_mstep sem_fin sem_waits sem_wstep (skind checked_table)
+                 (mzero, mkM 1 10) sem_blocking_trace c.
+Proof.
+  split; [vm_compute; reflexivity|]. split; [vm_compute; reflexivity|].
+  apply sem_blocking_trace_exec. intros []; vm_compute; reflexivity.
+Qed.
+
+Example C28_wlru_kinds_from_table :
+  wkind checked_table (WBase (OGet 1%N) : @wop N N) = KExcl /\
+  wkind checked_table (WBase (OPeek 1%N) : @wop N N) = KShared /\
+  wkind checked_table (WTotal : @wop N N) = KShared /\
+  wkind checked_table (WBase (OAdd 1%N 1%N 1%N) : @wop N N) = KExcl.
+Proof. vm_compute. repeat split; reflexivity. Qed.
+
+(* the generic instance: any object whose operations are methods with a row in the checked table
+   (hypotheses 3-5 are the trusted part: the translator's report is true of the code) *)
 Theorem C28_components_linearizable :
   forall (state op ret local : Type) (linit : op -> local) (mstep : op -> local -> state -> local * state)
-         (fin : op -> local -> option ret) (s0 : state) (row_of : op -> lock_row),
+         (fin : op -> local -> option ret) (waits : op -> local -> bool) (wstep : op -> local -> local)
+         (s0 : state) (row_of : op -> lock_row),
     (forall o, In (row_of o) checked_table) ->
     (forall o, r_quiescent (row_of o) = false) ->
     (forall o, r_writes (row_of o) = 0%N -> forall l s, snd (mstep o l s) = s) ->
     (forall o, accesses (row_of o) = 0%N -> forall l s s', mstep o l s = (fst (mstep o l s'), s)) ->
-    forall tr c, exec state op ret local linit mstep fin (kind_of_op op row_of) s0 tr c ->
-    linearizable state op ret local linit mstep fin s0 (hist op ret tr).
+    (forall o l, waits o l = true -> r_condwait (row_of o) = true) ->
+    forall resumable, resumable_inv state op ret local linit mstep fin waits wstep resumable ->
+    forall tr c, exec state op ret local linit mstep fin waits wstep (kind_of_op op row_of) s0 tr c ->
+    linearizable state op ret local linit mstep fin waits wstep s0 (hist op ret tr).
 Proof.
-  exact (fun st op rt lc li ms fi s0 ro => table_linearizable st op rt lc li ms fi s0 checked_table ro C28_lock_table_ok).
+  exact (fun st op rt lc li ms fi wa ws s0 ro =>
+           table_linearizable st op rt lc li ms fi wa ws s0 checked_table ro C28_lock_table_ok).
 Qed.
 
 Theorem C28_components_race_free :
   forall (state op ret local : Type) (linit : op -> local) (mstep : op -> local -> state -> local * state)
-         (fin : op -> local -> option ret) (s0 : state) (row_of : op -> lock_row),
+         (fin : op -> local -> option ret) (waits : op -> local -> bool) (wstep : op -> local -> local)
+         (s0 : state) (row_of : op -> lock_row),
     (forall o, In (row_of o) checked_table) ->
     (forall o, r_quiescent (row_of o) = false) ->
     (forall o, r_writes (row_of o) = 0%N -> forall l s, snd (mstep o l s) = s) ->
     (forall o, accesses (row_of o) = 0%N -> forall l s s', mstep o l s = (fst (mstep o l s'), s)) ->
-    forall tr c, exec state op ret local linit mstep fin (kind_of_op op row_of) s0 tr c ->
-    ~ race state op ret local fin (kind_of_op op row_of) c.
+    (forall o l, waits o l = true -> r_condwait (row_of o) = true) ->
+    forall resumable, resumable_inv state op ret local linit mstep fin waits wstep resumable ->
+    forall tr c, exec state op ret local linit mstep fin waits wstep (kind_of_op op row_of) s0 tr c ->
+    ~ race state op ret local fin waits (kind_of_op op row_of) c.
 Proof.
-  exact (fun st op rt lc li ms fi s0 ro => table_race_free st op rt lc li ms fi s0 checked_table ro C28_lock_table_ok).
+  exact (fun st op rt lc li ms fi wa ws s0 ro =>
+           table_race_free st op rt lc li ms fi wa ws s0 checked_table ro C28_lock_table_ok).
 Qed.
 
 (* non-vacuity of the instance: the counter object with Incr2 := the row of wlru.Cache.Add and
@@ -182,11 +317,23 @@ Proof. vm_compute. repeat split; reflexivity. Qed.
 
 Print Assumptions C28_locked_refines_atomic.
 Print Assumptions C28_locked_atomic_linearizable.
+Print Assumptions C28_locked_atomic_linearizable_nowait.
 Print Assumptions C28_locked_race_free.
 Print Assumptions C28_conflicting_accesses_ordered.
 Print Assumptions C28_atomic_linearizable.
 Print Assumptions C28_unlocked_read_not_linearizable.
 Print Assumptions C28_lock_table_ok.
 Print Assumptions C28_eventsbuffer_unlocked_reads_refuted.
+Print Assumptions C28_wlru_table_check.
+Print Assumptions C28_wlru_cache_linearizable.
+Print Assumptions C28_wlru_cache_race_free.
+Print Assumptions C28_wlru_sequential_spec_is_the_model.
+Print Assumptions C28_flushable_table_check.
+Print Assumptions C28_flushable_linearizable.
+Print Assumptions C28_flushable_race_free.
+Print Assumptions C28_semaphore_table_check.
+Print Assumptions C28_semaphore_linearizable.
+Print Assumptions C28_semaphore_race_free.
+Print Assumptions C28_semaphore_sequential_spec_is_the_model.
 Print Assumptions C28_components_linearizable.
 Print Assumptions C28_components_race_free.
